@@ -707,6 +707,55 @@ func dischargeAssert(p *Prog, ta *ssa.TypeAssert) (string, bool) {
 		}
 		return bad, false
 	}
+	if name == "(*sync.Pool).Get" {
+		// every sync.Pool in the module has a New function returning the asserted type and receives only that type through Put
+		okNew, bad := false, ""
+		for _, fn := range p.ModFuncs {
+			allInstrs(fn, func(in ssa.Instruction) {
+				switch x := in.(type) {
+				case *ssa.Store:
+					if fa, ok := x.Addr.(*ssa.FieldAddr); ok {
+						if tn, f, _ := fieldOf(fa); tn == "Pool" && f == "New" {
+							if mk, ok := stripConv(x.Val).(*ssa.MakeClosure); ok {
+								allInstrs(mk.Fn.(*ssa.Function), func(in2 ssa.Instruction) {
+									if r, ok := in2.(*ssa.Return); ok {
+										if mi, ok := rr(r)[0].(*ssa.MakeInterface); ok && types.Identical(mi.X.Type(), ta.AssertedType) {
+											okNew = true
+										} else {
+											bad = "Pool.New returns another type"
+										}
+									}
+								})
+							} else if f2, ok := stripConv(x.Val).(*ssa.Function); ok {
+								allInstrs(f2, func(in2 ssa.Instruction) {
+									if r, ok := in2.(*ssa.Return); ok {
+										if mi, ok := rr(r)[0].(*ssa.MakeInterface); ok && types.Identical(mi.X.Type(), ta.AssertedType) {
+											okNew = true
+										} else {
+											bad = "Pool.New returns another type"
+										}
+									}
+								})
+							}
+						}
+					}
+				case ssa.CallInstruction:
+					if calleeFullName(x.Common()) == "(*sync.Pool).Put" {
+						if mi, ok := x.Common().Args[1].(*ssa.MakeInterface); !ok || !types.Identical(mi.X.Type(), ta.AssertedType) {
+							bad = "a value of another type is Put at " + p.InstrPos(in)
+						}
+					}
+				}
+			})
+		}
+		if okNew && bad == "" {
+			return "sync.Pool whose New and every Put supply a " + relType(ta.AssertedType), true
+		}
+		if bad == "" {
+			bad = "no Pool.New of the asserted type found"
+		}
+		return bad, false
+	}
 	callees := p.ModCallees(call)
 	if len(callees) == 0 {
 		return "callee " + calleeString(com) + " is not a module function", false
